@@ -405,6 +405,19 @@ def scalar_operand_checked(db, rep, rule):
     # two sources: the check fires at j = 1;  one source: in the loop at j = 0, or after it
     ok2 = fires(two, 1) is not None
     ok1 = fires(one, 0) is not None or fires(one, None) is not None
+    # ... and whatever kind a source is, the variable it is loaded into has multiplier * src_size bytes: beyond ORC_MAX_VAR_SIZE the
+    # emulator's per-variable scratch block (ORC_MAX_VAR_SIZE bytes per element) is too small.  A parameter or constant is loaded
+    # into a temporary of that size (orc_compiler_rewrite_insns), so it is no exception: `x4 convlw d1, p1` (4 x 4 = 16 bytes).
+    maxv = db.macro_int("ORC_MAX_VAR_SIZE")
+    for kind in ("PARAM", "CONST", "TEMP"):
+        wide = dict(base, **{"opcode->flags": 0, "multiplier": 4, "opcode->src_size[]": maxv // 2, "opcode->src_size[0]": maxv // 2, "opcode->src_size[1]": 0,
+                             "opcode->dest_size[]": maxv // 4, "compiler->vars[].size": maxv, "compiler->vars[].vartype": db.enum("ORC_VAR_TYPE_" + kind)})
+        okw = fires(wide, 0) is not None
+        rep.check(okw, rule, where(f), "wide-source:%s" % kind.lower(),
+                  "a source of %d bytes (x4, %d-byte opcode operand) is refused also when it is a %s" % (2 * maxv, maxv // 2, kind.lower()),
+                  "orc_compiler_check_sizes lets an instruction through whose source operand is multiplier * src_size = %d bytes wide when the operand is a "
+                  "%s (`x4 convlw d1, p1`): it is loaded into a compiler temporary of that size, twice ORC_MAX_VAR_SIZE - the compile succeeds and "
+                  "emulation writes past the temporary's scratch block (heap corruption)" % (2 * maxv, kind.lower()), line=f.line)
     for nm, ok, ex in (("two-source", ok2, "shlw d, s, t"), ("one-source", ok1, "loadpw t1, t2")):
         rep.check(ok, rule, where(f), "scalar-operand:%s" % nm,
                   "a %s SCALAR opcode whose scalar operand is a temporary is refused (ORC_COMPILE_RESULT_UNKNOWN_PARSE)" % nm,
